@@ -161,7 +161,7 @@ func projAssignment(ctx *verifapi.LanguageContext, a verifapi.Assignment) J {
 	return j
 }
 
-func projArgs(ctx *verifapi.LanguageContext, args []verifapi.Argument) []any {
+func c09ProjArgs(ctx *verifapi.LanguageContext, args []verifapi.Argument) []any {
 	out := []any{}
 	for _, a := range args {
 		out = append(out, J{"name": a.Name, "shape": shapeOf(ctx, a.Type)})
@@ -169,7 +169,7 @@ func projArgs(ctx *verifapi.LanguageContext, args []verifapi.Argument) []any {
 	return out
 }
 
-func projBuilders(ctx *verifapi.LanguageContext) []any {
+func c09ProjBuilders(ctx *verifapi.LanguageContext) []any {
 	out := []any{}
 	for _, b := range ctx.Builders {
 		jb := J{"name": b.Name, "pkg": b.Package, "object": b.For.Name,
@@ -179,14 +179,14 @@ func projBuilders(ctx *verifapi.LanguageContext) []any {
 		for _, a := range b.Constructor.Assignments {
 			asgs = append(asgs, projAssignment(ctx, a))
 		}
-		jb["ctor"] = J{"args": projArgs(ctx, b.Constructor.Args), "asgs": asgs}
+		jb["ctor"] = J{"args": c09ProjArgs(ctx, b.Constructor.Args), "asgs": asgs}
 		opts := []any{}
 		for _, o := range b.Options {
 			oa := []any{}
 			for _, a := range o.Assignments {
 				oa = append(oa, projAssignment(ctx, a))
 			}
-			opts = append(opts, J{"name": o.Name, "args": projArgs(ctx, o.Args), "asgs": oa, "veneers": projStrings(o.VeneerTrail)})
+			opts = append(opts, J{"name": o.Name, "args": c09ProjArgs(ctx, o.Args), "asgs": oa, "veneers": projStrings(o.VeneerTrail)})
 		}
 		jb["options"] = opts
 		// the struct the builder is for: field -> shape (used to bind type keys of the specification to objects)
@@ -240,7 +240,7 @@ func c09GenOne(job c09GenJob) (res c09GenResult) {
 			res.Err = "context " + name + ": " + err.Error()
 			return res
 		}
-		raw, err := json.Marshal(J{"language": name, "builders": projBuilders(&lctx)})
+		raw, err := json.Marshal(J{"language": name, "builders": c09ProjBuilders(&lctx)})
 		if err != nil {
 			res.Err = "ir " + name + ": " + err.Error()
 			return res
